@@ -1796,6 +1796,173 @@ func rulePrevChainFollowed(c *core.Ctx) {
 			}
 		}
 	})
+	c.Check("C04-R9", "pdf.(*Reader).readXRef/chain-end", "the walk along /Prev ends successfully only where a section has no /Prev entry (or its position was visited before): no other condition may cut the chain, older sections define the objects that were never rewritten", func(o *core.Ob) {
+		fn := c.Prog.Func("pdf", "(*Reader).readXRef")
+		g := fn.Graph()
+		info := fn.Info()
+		heads := loopHeads(g)
+		if len(heads) == 0 {
+			core.Undecided("section loop not found")
+		}
+		head := heads[0]
+		body := succ(head, core.EdgeTrue)
+		if body == nil {
+			core.Undecided("section loop has no body")
+		}
+		from := g.ReachPlain(body, true, core.AvoidVs(head))
+		inLoop := map[*core.V]bool{head: true}
+		for v := range from {
+			if g.ReachPlain(v, false, nil)[head] {
+				inLoop[v] = true
+			}
+		}
+		// the value of /Prev: locals defined as <dict>["Prev"], and the comma-ok result of such a lookup
+		prevVal := map[types.Object]bool{}
+		prevOK := map[types.Object]bool{}
+		isPrevLookup := func(e ast.Expr) bool {
+			ix, ok := ast.Unparen(e).(*ast.IndexExpr)
+			if !ok {
+				return false
+			}
+			k, isK := core.StringConst(info, ix.Index)
+			return isK && k == "Prev"
+		}
+		for _, v := range g.Vs {
+			as, ok := v.AST.(*ast.AssignStmt)
+			if !ok || len(as.Rhs) != 1 || !isPrevLookup(as.Rhs[0]) {
+				continue
+			}
+			if obj := core.ObjOf(info, as.Lhs[0]); obj != nil {
+				prevVal[obj] = true
+			}
+			if len(as.Lhs) == 2 {
+				if obj := core.ObjOf(info, as.Lhs[1]); obj != nil {
+					prevOK[obj] = true
+				}
+			}
+		}
+		noPrev := func(a core.Atom) bool {
+			if a.Tag != nil {
+				return false
+			}
+			if id, ok := ast.Unparen(a.Expr).(*ast.Ident); ok && prevOK[info.ObjectOf(id)] && a.Neg {
+				return true
+			}
+			cmp, ok := a.AsCmp()
+			if !ok || cmp.Op != token.EQL {
+				return false
+			}
+			for _, pr := range [][2]ast.Expr{{cmp.L, cmp.R}, {cmp.R, cmp.L}} {
+				if core.IsNil(info, pr[1]) && (isPrevLookup(pr[0]) || prevVal[core.ObjOf(info, pr[0])]) {
+					return true
+				}
+			}
+			return false
+		}
+		mentionsPrev := func(e ast.Expr) bool {
+			found := false
+			ast.Inspect(e, func(n ast.Node) bool {
+				switch x := n.(type) {
+				case *ast.Ident:
+					if obj := info.ObjectOf(x); prevVal[obj] || prevOK[obj] {
+						found = true
+					}
+				case *ast.IndexExpr:
+					if isPrevLookup(x) {
+						found = true
+					}
+				}
+				return !found
+			})
+			return found
+		}
+		// successful ends of the function
+		var okRets []*core.V
+		for _, r := range g.Returns() {
+			rs, isRet := r.AST.(*ast.ReturnStmt)
+			if !isRet || len(rs.Results) == 0 {
+				continue
+			}
+			// (a return of a helper that was folded in is not an end of the function)
+			toExit := false
+			for _, e := range r.Succs {
+				if e.To == g.Exit {
+					toExit = true
+				}
+			}
+			if toExit && len(rs.Results) == 3 && core.IsNil(info, rs.Results[len(rs.Results)-1]) {
+				okRets = append(okRets, r)
+			}
+		}
+		if len(okRets) == 0 {
+			o.Unrec("readXRef has no return with a nil error")
+			return
+		}
+		exits := 0
+		for u := range inLoop {
+			if u == head {
+				continue
+			}
+			for _, e := range u.Succs {
+				if inLoop[e.To] {
+					continue
+				}
+				// does this way out end in success?
+				r := g.ReachPlain(e.To, true, nil)
+				success := false
+				for _, ok := range okRets {
+					if r[ok] || e.To == ok {
+						success = true
+					}
+				}
+				if !success {
+					continue
+				}
+				exits++
+				site := u.AST
+				if site == nil {
+					site = head.AST
+				}
+				o.At(fn.Site(site, "the chain walk ends here"))
+				if g.GuardedBy(u, noPrev) || (u.Cond != nil && func() bool {
+					for _, a := range u.Implied(e.Label) {
+						if noPrev(a) {
+							return true
+						}
+					}
+					return false
+				}()) {
+					continue
+				}
+				// under which condition?
+				conds := dominatingConds(g, u)
+				unknown := false
+				for _, bv := range g.BranchVertices() {
+					if bv.Cond.Expr == nil || !inLoop[bv] || bv == u || !g.Dominates(bv, u) || !mentionsPrev(bv.Cond.Expr) {
+						continue
+					}
+					// a test of /Prev against nil (either way) is understood; anything else about /Prev is not
+					understood := false
+					for _, l := range []core.EdgeLabel{core.EdgeTrue, core.EdgeFalse} {
+						for _, a := range bv.Implied(l) {
+							if noPrev(a) || noPrev(core.Atom{Expr: a.Expr, Neg: !a.Neg, Tag: a.Tag}) {
+								understood = true
+							}
+						}
+					}
+					if !understood {
+						unknown = true
+					}
+				}
+				if unknown {
+					o.Unrec("%s: the chain walk ends under a condition on /Prev that is not of the form prev == nil (%v)", c.Prog.Pos(site.Pos()), conds)
+					continue
+				}
+				o.FailAt(fn.Site(site, ""), "the walk along /Prev can end here, successfully, although the section just read has a /Prev entry (under %v): the older sections are not read, and every object that only they define resolves to null", conds)
+			}
+		}
+		o.Count(exits + 1)
+	})
 	c.Check("C04-R9", "pdf.(*scanner).ReadString/eol-flag", "the flag that makes an LF after a CR part of the same end-of-line is cleared after one byte", func(o *core.Ob) {
 		fn := c.Prog.Func("pdf", "(*scanner).ReadString")
 		g := fn.Graph()
